@@ -18,45 +18,58 @@ import (
 
 // Opcode numbers (Yellow Paper appendix H.2).
 const (
-	C15STOP       = 0x00
-	C15ADD        = 0x01
-	C15MUL        = 0x02
-	C15SUB        = 0x03
-	C15DIV        = 0x04
-	C15SDIV       = 0x05
-	C15MOD        = 0x06
-	C15SMOD       = 0x07
-	C15ADDMOD     = 0x08
-	C15MULMOD     = 0x09
-	C15EXP        = 0x0a
-	C15SIGNEXTEND = 0x0b
-	C15LT         = 0x10
-	C15GT         = 0x11
-	C15SLT        = 0x12
-	C15SGT        = 0x13
-	C15EQ         = 0x14
-	C15ISZERO     = 0x15
-	C15AND        = 0x16
-	C15OR         = 0x17
-	C15XOR        = 0x18
-	C15NOT        = 0x19
-	C15BYTE       = 0x1a
-	C15SHL        = 0x1b
-	C15SHR        = 0x1c
-	C15SAR        = 0x1d
-	C15POP        = 0x50
-	C15MLOAD      = 0x51
-	C15MSTORE     = 0x52
-	C15MSTORE8    = 0x53
-	C15SLOAD      = 0x54
-	C15SSTORE     = 0x55
-	C15PUSH1      = 0x60
-	C15PUSH32     = 0x7f
-	C15DUP1       = 0x80
-	C15DUP16      = 0x8f
-	C15SWAP1      = 0x90
-	C15SWAP16     = 0x9f
-	C15RETURN     = 0xf3
+	C15STOP           = 0x00
+	C15ADD            = 0x01
+	C15MUL            = 0x02
+	C15SUB            = 0x03
+	C15DIV            = 0x04
+	C15SDIV           = 0x05
+	C15MOD            = 0x06
+	C15SMOD           = 0x07
+	C15ADDMOD         = 0x08
+	C15MULMOD         = 0x09
+	C15EXP            = 0x0a
+	C15SIGNEXTEND     = 0x0b
+	C15LT             = 0x10
+	C15GT             = 0x11
+	C15SLT            = 0x12
+	C15SGT            = 0x13
+	C15EQ             = 0x14
+	C15ISZERO         = 0x15
+	C15AND            = 0x16
+	C15OR             = 0x17
+	C15XOR            = 0x18
+	C15NOT            = 0x19
+	C15BYTE           = 0x1a
+	C15SHL            = 0x1b
+	C15SHR            = 0x1c
+	C15SAR            = 0x1d
+	C15SHA3           = 0x20 // KECCAK256
+	C15CALLDATALOAD   = 0x35
+	C15CALLDATASIZE   = 0x36
+	C15CALLDATACOPY   = 0x37
+	C15CODESIZE       = 0x38
+	C15CODECOPY       = 0x39
+	C15RETURNDATASIZE = 0x3d // EIP-211
+	C15RETURNDATACOPY = 0x3e // EIP-211
+	C15POP            = 0x50
+	C15MLOAD          = 0x51
+	C15MSTORE         = 0x52
+	C15MSTORE8        = 0x53
+	C15SLOAD          = 0x54
+	C15SSTORE         = 0x55
+	C15MSIZE          = 0x59
+	C15GAS            = 0x5a
+	C15PUSH1          = 0x60
+	C15PUSH32         = 0x7f
+	C15DUP1           = 0x80
+	C15DUP16          = 0x8f
+	C15SWAP1          = 0x90
+	C15SWAP16         = 0x9f
+	C15LOG0           = 0xa0
+	C15LOG4           = 0xa4
+	C15RETURN         = 0xf3
+	C15REVERT         = 0xfd // EIP-140
 )
 
 // C15OpNames: mnemonic of every opcode of the computational groups.
@@ -105,6 +118,30 @@ func C15Name(op byte) string {
 		return "SSTORE"
 	case op == C15RETURN:
 		return "RETURN"
+	case op == C15REVERT:
+		return "REVERT"
+	case op == C15SHA3:
+		return "SHA3"
+	case op == C15CALLDATALOAD:
+		return "CALLDATALOAD"
+	case op == C15CALLDATASIZE:
+		return "CALLDATASIZE"
+	case op == C15CALLDATACOPY:
+		return "CALLDATACOPY"
+	case op == C15CODESIZE:
+		return "CODESIZE"
+	case op == C15CODECOPY:
+		return "CODECOPY"
+	case op == C15RETURNDATASIZE:
+		return "RETURNDATASIZE"
+	case op == C15RETURNDATACOPY:
+		return "RETURNDATACOPY"
+	case op == C15MSIZE:
+		return "MSIZE"
+	case op == C15GAS:
+		return "GAS"
+	case op >= C15LOG0 && op <= C15LOG4:
+		return "LOG" + itoa(int(op-C15LOG0))
 	case op >= C15PUSH1 && op <= C15PUSH32:
 		return "PUSH" + itoa(int(op-C15PUSH1)+1)
 	case op >= C15DUP1 && op <= C15DUP16:
@@ -585,15 +622,21 @@ func c15longdiv(x, y *big.Int) (q, r *big.Int) {
 // ---- gas table (Istanbul), typed in by hand --------------------------------------------------
 
 const (
-	c15Gzero    = 0
-	c15Gbase    = 2
-	c15Gverylow = 3
-	c15Glow     = 5
-	c15Gmid     = 8
-	c15Gexp     = 10
-	c15Gexpbyte = 50 // EIP-160
-	c15Gmemory  = 3
-	c15Gsload   = 800 // EIP-1884
+	c15Gzero     = 0
+	c15Gbase     = 2
+	c15Gverylow  = 3
+	c15Glow      = 5
+	c15Gmid      = 8
+	c15Gexp      = 10
+	c15Gexpbyte  = 50 // EIP-160
+	c15Gmemory   = 3
+	c15Gcopy     = 3   // per word copied by *COPY
+	c15Gsha3     = 30  // KECCAK256
+	c15Gsha3word = 6   // per word hashed
+	c15Glog      = 375 // LOGn
+	c15Glogtopic = 375 // per topic
+	c15Glogdata  = 8   // per byte of log data
+	c15Gsload    = 800 // EIP-1884
 	// EIP-2200
 	c15GsstoreSentry = 2300
 	c15GsstoreNoop   = 800 // = SLOAD_GAS
@@ -602,15 +645,17 @@ const (
 )
 
 // C15StaticGas: the constant part of the price of an opcode of the subset (EXP: without the
-// per-byte part; memory opcodes: without expansion; SSTORE: 0, fully dynamic).
+// per-byte part; memory opcodes: without expansion and without the per-word/per-byte part;
+// SSTORE: 0, fully dynamic).
 func C15StaticGas(op byte) uint64 {
 	switch op {
-	case C15STOP, C15RETURN, C15SSTORE:
+	case C15STOP, C15RETURN, C15REVERT, C15SSTORE:
 		return c15Gzero
-	case C15POP:
+	case C15POP, C15CALLDATASIZE, C15CODESIZE, C15RETURNDATASIZE, C15MSIZE, C15GAS:
 		return c15Gbase
 	case C15ADD, C15SUB, C15NOT, C15LT, C15GT, C15SLT, C15SGT, C15EQ, C15ISZERO, C15AND, C15OR, C15XOR,
-		C15BYTE, C15SHL, C15SHR, C15SAR, C15MLOAD, C15MSTORE, C15MSTORE8:
+		C15BYTE, C15SHL, C15SHR, C15SAR, C15MLOAD, C15MSTORE, C15MSTORE8,
+		C15CALLDATALOAD, C15CALLDATACOPY, C15CODECOPY, C15RETURNDATACOPY:
 		return c15Gverylow
 	case C15MUL, C15DIV, C15SDIV, C15MOD, C15SMOD, C15SIGNEXTEND:
 		return c15Glow
@@ -620,6 +665,11 @@ func C15StaticGas(op byte) uint64 {
 		return c15Gexp
 	case C15SLOAD:
 		return c15Gsload
+	case C15SHA3:
+		return c15Gsha3
+	}
+	if op >= C15LOG0 && op <= C15LOG4 {
+		return c15Glog + c15Glogtopic*uint64(op-C15LOG0)
 	}
 	if (op >= C15PUSH1 && op <= C15PUSH32) || (op >= C15DUP1 && op <= C15SWAP16) {
 		return c15Gverylow
@@ -645,17 +695,47 @@ func C15MemCost(words uint64) uint64 {
 	return c15memCost(new(big.Int).SetUint64(words)).Uint64()
 }
 
+// C15MemWords is the Yellow Paper's M(s, f, l): the number of active memory words after an access
+// of l bytes at offset f when s words were active before: s if l = 0, else max(s, ceil((f+l)/32)).
+func C15MemWords(s uint64, f, l *big.Int) *big.Int {
+	cur := new(big.Int).SetUint64(s)
+	if l.Sign() == 0 {
+		return cur
+	}
+	end := new(big.Int).Add(f, l)
+	end.Add(end, big.NewInt(31))
+	end.Quo(end, big.NewInt(32))
+	if end.Cmp(cur) <= 0 {
+		return cur
+	}
+	return end
+}
+
+// c15words: ceil(n/32).
+func c15words(n *big.Int) *big.Int {
+	w := new(big.Int).Add(n, big.NewInt(31))
+	return w.Quo(w, big.NewInt(32))
+}
+
 // ---- interpreter -----------------------------------------------------------------------------
+
+// C15Log is one LOGn record.
+type C15Log struct {
+	Topics [][32]byte
+	Data   []byte
+}
 
 // C15Out is what the reference observed.
 type C15Out struct {
-	Err      string     // "" (normal halt) | out-of-gas | stack-underflow | stack-overflow | invalid-opcode
+	Err      string     // "" (normal halt or REVERT) | out-of-gas | stack-underflow | stack-overflow | invalid-opcode | returndata-out-of-bounds
 	ErrPC    int        // pc of the failing instruction
-	Ret      []byte     // output of RETURN
+	Reverted bool       // halted by REVERT: Ret is the revert data, GasUsed what was really consumed
+	Ret      []byte     // output of RETURN / REVERT
 	GasUsed  uint64     // gas consumed (all of it when Err != "")
 	Stack    []*big.Int // final stack, bottom first
 	Mem      []byte     // final memory (multiple of 32 bytes)
 	Storage  map[[32]byte][32]byte
+	Logs     []C15Log // LOGn records in order (to be dropped by the caller when Err != "" or Reverted)
 	OpCount  [256]int // executed instructions by opcode
 	Steps    int
 	Storage0 bool // any SLOAD/SSTORE executed
@@ -663,12 +743,152 @@ type C15Out struct {
 	SLoads   int
 	// events of interest to the evidence
 	DivByZero, ShiftGE256, SignedNeg, ExpBytes int
+	// MemEv: what kind of memory accesses were executed (charged and performed), by situation and
+	// opcode group; see c15memEvent.
+	MemEv C15MemEvents
 }
 
-// C15Exec runs code with the given gas. storage is the pre-state of the executing account (not
-// modified; original values for EIP-2200 are taken to be zero for every slot, i.e. the account
-// has no committed storage). 1024 is the stack limit.
+// C15MemGroups: the memory-touching opcode groups (lower case, used in counter names).
+var C15MemGroups = []string{"mload", "mstore", "mstore8", "calldatacopy", "codecopy", "returndatacopy", "sha3", "log", "return", "revert"}
+
+// C15MemGroupIndex: index into C15MemGroups of a memory-touching opcode, -1 for any other.
+func C15MemGroupIndex(op byte) int {
+	switch {
+	case op == C15MLOAD:
+		return 0
+	case op == C15MSTORE:
+		return 1
+	case op == C15MSTORE8:
+		return 2
+	case op == C15CALLDATACOPY:
+		return 3
+	case op == C15CODECOPY:
+		return 4
+	case op == C15RETURNDATACOPY:
+		return 5
+	case op == C15SHA3:
+		return 6
+	case op >= C15LOG0 && op <= C15LOG4:
+		return 7
+	case op == C15RETURN:
+		return 8
+	case op == C15REVERT:
+		return 9
+	}
+	return -1
+}
+
+// Situations of an executed memory access (relative to the memory active before it).
+const (
+	C15SitZeroLength             = iota
+	C15SitZeroLengthAtHugeOffset // length 0, offset >= 2^32
+	C15SitZeroLengthBeyondEnd    // length 0, end of active memory < offset < 2^32
+	C15SitFreshMemory            // nothing active before
+	C15SitUnaligned              // offset mod 32 != 0
+	C15SitOffsetOneBeforeBoundary
+	C15SitCrossesBoundaryByOne // the last byte touched is the first byte of a word
+	C15SitUnalignedEndingOnBoundary
+	C15SitExpands
+	C15SitExpandsByOneWord
+	C15SitExpansionQuadratic // floor(words^2/512) changed
+	C15SitStartsExactlyAtEnd // expanding, offset = active size
+	C15SitStartsBeyondEnd    // expanding, offset > active size
+	C15SitStraddlesEnd       // expanding, starts inside the active memory
+	C15SitEndsExactlyAtEnd   // not expanding, last byte touched = last active byte
+	C15SitInLastActiveWord   // not expanding, last byte touched lies in the last active word
+	C15SitExpandedFurther    // not expanding, at least one whole active word behind the access
+	c15NSit
+)
+
+// C15MemSits names the situations (used in counter names).
+var C15MemSits = [c15NSit]string{"zero_length", "zero_length_at_huge_offset", "zero_length_beyond_end", "fresh_memory", "unaligned",
+	"offset_one_byte_before_word_boundary", "crosses_word_boundary_by_one_byte", "unaligned_ending_on_word_boundary", "expands",
+	"expands_by_exactly_one_word", "expansion_with_quadratic_term", "starts_exactly_at_end", "starts_beyond_end", "straddles_end",
+	"ends_exactly_at_end", "in_last_active_word", "memory_already_expanded_further"}
+
+// C15MemEvents counts executed (charged and performed) memory accesses by situation and group.
+type C15MemEvents [c15NSit][10]int
+
+var c15Two32 = new(big.Int).Lsh(big.NewInt(1), 32)
+
+// c15memEvent classifies one executed memory access of size bytes at off when cur bytes were
+// active (cur is a multiple of 32) and newWords words are active afterwards.
+func (o *C15Out) c15memEvent(op byte, off, size *big.Int, cur int, newWords *big.Int) {
+	g := C15MemGroupIndex(op)
+	if g < 0 {
+		return
+	}
+	ev := func(sit int) { o.MemEv[sit][g]++ }
+	if size.Sign() == 0 {
+		ev(C15SitZeroLength)
+		switch {
+		case off.Cmp(c15Two32) >= 0:
+			ev(C15SitZeroLengthAtHugeOffset)
+		case off.Cmp(big.NewInt(int64(cur))) > 0:
+			ev(C15SitZeroLengthBeyondEnd)
+		}
+		return
+	}
+	// size > 0 and the access was paid for: off and size are small
+	f, l := int(off.Int64()), int(size.Int64())
+	end := f + l
+	nw := int(newWords.Int64()) * 32
+	if cur == 0 {
+		ev(C15SitFreshMemory)
+	}
+	if f%32 != 0 {
+		ev(C15SitUnaligned)
+	}
+	if f%32 == 31 {
+		ev(C15SitOffsetOneBeforeBoundary)
+	}
+	if end%32 == 1 {
+		ev(C15SitCrossesBoundaryByOne)
+	}
+	if end%32 == 0 && f%32 != 0 {
+		ev(C15SitUnalignedEndingOnBoundary)
+	}
+	switch {
+	case nw > cur: // expansion
+		ev(C15SitExpands)
+		if nw-cur == 32 {
+			ev(C15SitExpandsByOneWord)
+		}
+		if C15MemCost(uint64(nw/32))-3*uint64(nw/32) != C15MemCost(uint64(cur/32))-3*uint64(cur/32) {
+			ev(C15SitExpansionQuadratic)
+		}
+		switch {
+		case cur > 0 && f == cur:
+			ev(C15SitStartsExactlyAtEnd)
+		case cur > 0 && f > cur:
+			ev(C15SitStartsBeyondEnd)
+		case cur > 0 && f < cur:
+			ev(C15SitStraddlesEnd)
+		}
+	case end == cur:
+		ev(C15SitEndsExactlyAtEnd)
+		ev(C15SitInLastActiveWord)
+	case end > cur-32:
+		ev(C15SitInLastActiveWord)
+	default:
+		ev(C15SitExpandedFurther)
+	}
+}
+
+// C15Exec runs code without call data; see C15ExecIn.
 func C15Exec(code []byte, gas uint64, storage map[[32]byte][32]byte) *C15Out {
+	return C15ExecIn(code, nil, gas, storage)
+}
+
+// C15ExecIn runs code with the given call data and gas. storage is the pre-state of the executing
+// account (not modified; original values for EIP-2200 are taken to be zero for every slot, i.e.
+// the account has no committed storage). 1024 is the stack limit. The program is the outermost
+// frame and makes no calls: the return data buffer (EIP-211) is always empty.
+//
+// Active memory follows the Yellow Paper exactly: µi (words) only grows, by M(µi, f, l) for every
+// memory access, l = 0 never grows it whatever f is; every instruction is charged
+// Cmem(µi') - Cmem(µi) on top of its own price; MSIZE is 32*µi.
+func C15ExecIn(code, input []byte, gas uint64, storage map[[32]byte][32]byte) *C15Out {
 	o := &C15Out{Storage: map[[32]byte][32]byte{}}
 	for k, v := range storage {
 		o.Storage[k] = v
@@ -693,23 +913,34 @@ func C15Exec(code []byte, gas uint64, storage map[[32]byte][32]byte) *C15Out {
 	}
 	// expansion cost for touching [off, off+size) and the new word count
 	expand := func(off, size *big.Int) (*big.Int, *big.Int) {
-		cur := big.NewInt(int64(len(mem) / 32))
-		if size.Sign() == 0 {
-			return new(big.Int), cur
+		cur := uint64(len(mem) / 32)
+		words := C15MemWords(cur, off, size)
+		if words.IsUint64() && words.Uint64() == cur {
+			return new(big.Int), words
 		}
-		end := new(big.Int).Add(off, size)
-		words := end.Add(end, big.NewInt(31))
-		words.Quo(words, big.NewInt(32))
-		if words.Cmp(cur) <= 0 {
-			return new(big.Int), cur
-		}
-		return new(big.Int).Sub(c15memCost(words), c15memCost(cur)), words
+		return new(big.Int).Sub(c15memCost(words), c15memCost(new(big.Int).SetUint64(cur))), words
 	}
 	grow := func(words *big.Int) {
 		n := int(words.Int64()) * 32
 		if n > len(mem) {
 			mem = append(mem, make([]byte, n-len(mem))...)
 		}
+	}
+	// slice of memory; size 0 reads nothing whatever the offset is
+	mslice := func(off, size *big.Int) []byte {
+		if size.Sign() == 0 {
+			return nil
+		}
+		f, l := int(off.Int64()), int(size.Int64())
+		return mem[f : f+l]
+	}
+	// bytes [off, off+size) of data, zero beyond its end (size already paid for, hence small)
+	padded := func(data []byte, off, size *big.Int) []byte {
+		out := make([]byte, int(size.Int64()))
+		if off.IsUint64() && off.Uint64() < uint64(len(data)) {
+			copy(out, data[off.Uint64():])
+		}
+		return out
 	}
 	for {
 		if pc >= len(code) {
@@ -725,10 +956,18 @@ func C15Exec(code []byte, gas uint64, storage map[[32]byte][32]byte) *C15Out {
 			pops, pushes = int(c15arity[op]), 1
 		case op == C15POP:
 			pops = 1
-		case op == C15MLOAD, op == C15SLOAD:
+		case op == C15MLOAD, op == C15SLOAD, op == C15CALLDATALOAD:
 			pops, pushes = 1, 1
-		case op == C15MSTORE, op == C15MSTORE8, op == C15SSTORE, op == C15RETURN:
+		case op == C15MSTORE, op == C15MSTORE8, op == C15SSTORE, op == C15RETURN, op == C15REVERT:
 			pops = 2
+		case op == C15SHA3:
+			pops, pushes = 2, 1
+		case op == C15CALLDATACOPY, op == C15CODECOPY, op == C15RETURNDATACOPY:
+			pops = 3
+		case op == C15CALLDATASIZE, op == C15CODESIZE, op == C15RETURNDATASIZE, op == C15MSIZE, op == C15GAS:
+			pushes = 1
+		case op >= C15LOG0 && op <= C15LOG4:
+			pops = 2 + int(op-C15LOG0)
 		case op >= C15PUSH1 && op <= C15PUSH32:
 			pushes = 1
 		case op >= C15DUP1 && op <= C15DUP16:
@@ -748,16 +987,19 @@ func C15Exec(code []byte, gas uint64, storage map[[32]byte][32]byte) *C15Out {
 		// price: static part plus (for EXP, memory and SSTORE) the dynamic part
 		static := C15StaticGas(op)
 		var dyn, newWords *big.Int
-		switch op {
-		case C15EXP:
+		var mOff, mSize *big.Int // the memory access of this instruction, if any
+		switch {
+		case op == C15EXP:
 			static = C15ExpGas(top(1))
-		case C15MLOAD, C15MSTORE:
-			dyn, newWords = expand(top(0), big.NewInt(32))
-		case C15MSTORE8:
-			dyn, newWords = expand(top(0), big.NewInt(1))
-		case C15RETURN:
-			dyn, newWords = expand(top(0), top(1))
-		case C15SSTORE:
+		case op == C15MLOAD, op == C15MSTORE:
+			mOff, mSize = top(0), big.NewInt(32)
+		case op == C15MSTORE8:
+			mOff, mSize = top(0), big.NewInt(1)
+		case op == C15RETURN, op == C15REVERT, op == C15SHA3, op >= C15LOG0 && op <= C15LOG4:
+			mOff, mSize = top(0), top(1)
+		case op == C15CALLDATACOPY, op == C15CODECOPY, op == C15RETURNDATACOPY:
+			mOff, mSize = top(0), top(2)
+		case op == C15SSTORE:
 			if gasLeft <= c15GsstoreSentry {
 				return fail("out-of-gas")
 			}
@@ -772,6 +1014,17 @@ func C15Exec(code []byte, gas uint64, storage map[[32]byte][32]byte) *C15Out {
 				static = c15GsstoreNoop
 			}
 		}
+		if mOff != nil {
+			dyn, newWords = expand(mOff, mSize)
+			switch {
+			case op == C15SHA3:
+				dyn.Add(dyn, new(big.Int).Mul(c15words(mSize), big.NewInt(c15Gsha3word)))
+			case op == C15CALLDATACOPY, op == C15CODECOPY, op == C15RETURNDATACOPY:
+				dyn.Add(dyn, new(big.Int).Mul(c15words(mSize), big.NewInt(c15Gcopy)))
+			case op >= C15LOG0 && op <= C15LOG4:
+				dyn.Add(dyn, new(big.Int).Mul(mSize, big.NewInt(c15Glogdata)))
+			}
+		}
 		if dyn == nil {
 			if static > gasLeft {
 				return fail("out-of-gas")
@@ -780,7 +1033,14 @@ func C15Exec(code []byte, gas uint64, storage map[[32]byte][32]byte) *C15Out {
 		} else if !charge(dyn.Add(dyn, new(big.Int).SetUint64(static))) {
 			return fail("out-of-gas")
 		}
+		if op == C15RETURNDATACOPY {
+			// EIP-211: reading beyond the (here: empty) return data buffer is an exceptional halt
+			if new(big.Int).Add(top(1), top(2)).Sign() != 0 {
+				return fail("returndata-out-of-bounds")
+			}
+		}
 		if newWords != nil {
+			o.c15memEvent(op, mOff, mSize, len(mem), newWords)
 			grow(newWords)
 		}
 		// execute
@@ -852,12 +1112,49 @@ func C15Exec(code []byte, gas uint64, storage map[[32]byte][32]byte) *C15Out {
 			}
 			o.Storage0 = true
 			st = st[:len(st)-2]
-		case op == C15RETURN:
-			if top(1).Sign() != 0 {
-				off, size := int(top(0).Int64()), int(top(1).Int64())
-				o.Ret = append([]byte{}, mem[off:off+size]...)
+		case op == C15SHA3:
+			h := C15Keccak256(mslice(top(0), top(1)))
+			st = append(st[:len(st)-2], new(big.Int).SetBytes(h[:]))
+			o.MemReads++
+		case op == C15CALLDATALOAD:
+			st[len(st)-1] = new(big.Int).SetBytes(padded(input, top(0), big.NewInt(32)))
+		case op == C15CALLDATASIZE:
+			st = append(st, big.NewInt(int64(len(input))))
+		case op == C15CODESIZE:
+			st = append(st, big.NewInt(int64(len(code))))
+		case op == C15RETURNDATASIZE:
+			st = append(st, big.NewInt(0))
+		case op == C15CALLDATACOPY, op == C15CODECOPY:
+			src := input
+			if op == C15CODECOPY {
+				src = code
+			}
+			if top(2).Sign() != 0 {
+				copy(mslice(top(0), top(2)), padded(src, top(1), top(2)))
+			}
+			st = st[:len(st)-3]
+		case op == C15RETURNDATACOPY: // nothing to copy: offset 0, length 0 of an empty buffer
+			st = st[:len(st)-3]
+		case op == C15MSIZE:
+			st = append(st, big.NewInt(int64(len(mem))))
+		case op == C15GAS: // the gas available after paying for this instruction
+			st = append(st, new(big.Int).SetUint64(gasLeft))
+		case op >= C15LOG0 && op <= C15LOG4:
+			n := int(op - C15LOG0)
+			l := C15Log{Data: append([]byte{}, mslice(top(0), top(1))...)}
+			for i := 0; i < n; i++ {
+				l.Topics = append(l.Topics, c15toWord(top(2+i)))
+			}
+			o.Logs = append(o.Logs, l)
+			o.MemReads++
+			st = st[:len(st)-2-n]
+		case op == C15RETURN, op == C15REVERT:
+			o.Ret = append([]byte{}, mslice(top(0), top(1))...)
+			if len(o.Ret) == 0 {
+				o.Ret = nil
 			}
 			st = st[:len(st)-2]
+			o.Reverted = op == C15REVERT
 			o.GasUsed, o.Stack, o.Mem = gas-gasLeft, st, mem
 			return o
 		case op >= C15PUSH1 && op <= C15PUSH32:
